@@ -7,6 +7,7 @@ import Driver.Labels
 import Driver.Coproc
 import Driver.CaseRepo
 import Driver.Config
+import Driver.Flow
 /-
   Driver: one request per line on stdin, one answer per line on stdout.
   Unknown or malformed lines answer `bad` (never a default).
@@ -24,6 +25,8 @@ def handle (line : String) : String :=
   else if l.startsWith "coproc " then handleCoproc l
   else if l.startsWith "repo " then handleRepo l
   else if l.startsWith "config " then handleConfig l
+  else if l.startsWith "verdict " then handleVerdict l
+  else if l.startsWith "suite " then handleSuite l
   else if l.startsWith "label " then handleLabel l
   else if l.startsWith "labelfile " then handleLabelFile l
   else if l.startsWith "idx " then handleIdx l
